@@ -1,2 +1,3 @@
 (* C18 Proofs: the lemmas live in one file per primitive; this file re-exports them. *)
 From God Require Export C18.ProofsSF C18.ProofsLC C18.ProofsAO C18.ProofsPool C18.ProofsRM C18.ProofsTL.
+From God Require Export C18.ProofsRef.
